@@ -1,5 +1,6 @@
 import ConduitModel.Spec.Live
 import ConduitModel.Props.C15
+import ConduitModel.Proofs.LockTable
 
 /-!
 # C16 — live apply to a running pipeline loses nothing and never applies a stale plan
@@ -14,8 +15,12 @@ configuration."
 
 Model: `Model/Live.lean` — `ApplyPlanLive` as a sequential program over (M6 state, scripted
 lifecycle outcomes), for every state, configuration, presented plan, lifecycle script and
-failing store-operation index. Partial on: the plan hash abstracted as the plan itself
-(SHA-256 collisions), the per-pipeline lock as mutual exclusion, and the data-path clauses
+failing store-operation index; the per-pipeline lock table as an event system
+(`Model/LockTable.lean`): for every interleaving of any number of callers, applies for one
+pipeline never overlap (`C16_apply_lock_mutual_exclusion`), so one apply *is* a sequential
+program with respect to other applies and the state it mutates is the state its plan / hash
+check read (`C16_apply_sees_checked_state`). Partial on: the plan hash abstracted as the plan itself
+(SHA-256 collisions), and the data-path clauses
 (drained ⇒ positions durable, resume from the durable position, in-place swap at a record
 boundary) which are C06 / C03 / C13 and enter here as the assumption that a successful
 `StopAndWait` leaves the pipeline stopped with durable positions.
@@ -221,5 +226,79 @@ example :
     (applyPlanLive v cfgA plan true { stopOk := true, startOk := true, reconf := [] } { s with ctr := 0 }).2.2
       = [.stop, .commit, .start] := by
   decide +kernel
+
+/-! ## the per-pipeline lock: applies for one pipeline never overlap -/
+
+section Lock
+open Conduit.LockTable
+
+/-- C16.apply_lock_mutual_exclusion — `ApplyPlan` / `ApplyPlanLive` hold the pipeline's lock for
+their entire body (regenerated: `C16_fact_lock_held_for_body`), and the lock table hands all
+callers of one id the SAME mutex: with lookup, create and insert inside one `p.mu` section (the
+regenerated section structure, `C16_fact_lock_sections`), for every number of callers, every
+assignment of pipeline ids to them, every apply function and **every interleaving** (`sched`):
+two callers past the get-or-create step with the same id hold the same table entry, and at most
+one caller is inside the per-id section at a time. Full strength for the event-system model. -/
+theorem C16_apply_lock_mutual_exclusion {σ : Type} (idOf : Nat → LockTable.Id) (f : Nat → σ → σ) (st0 : LockTable.Id → σ)
+    (sched : List Nat) :
+    let s := LockTable.run ⟨codeShape, idOf, f⟩ (LT.init st0) sched
+    (∀ c1 c2, ((s.cs c1).pc = .acquire ∨ LockTable.holds s c1) → ((s.cs c2).pc = .acquire ∨ LockTable.holds s c2) → idOf c1 = idOf c2 →
+        (s.cs c1).l = (s.cs c2).l ∧ ((s.cs c1).l).isSome = true) ∧
+    (∀ c1 c2, LockTable.holds s c1 → LockTable.holds s c2 → idOf c1 = idOf c2 → c1 = c2) := by
+  intro s
+  have hi : LockTable.Inv ⟨codeShape, idOf, f⟩ s := LockTable.inv_run _ rfl sched _ (LockTable.inv_init _ st0)
+  refine ⟨?_, fun c1 c2 h1 h2 hid => hi.mutex c1 c2 h1 h2 hid⟩
+  intro c1 c2 h1 h2 hid
+  obtain ⟨a1, b1⟩ := hi.past c1 h1
+  obtain ⟨a2, _⟩ := hi.past c2 h2
+  have hid' : (⟨codeShape, idOf, f⟩ : Sys σ).idOf c1 = (⟨codeShape, idOf, f⟩ : Sys σ).idOf c2 := hid
+  exact ⟨by rw [a1, a2, hid'], by rw [a1]; exact b1⟩
+
+/-- its use in the C16 argument — "the plan-hash re-check and the apply are atomic with respect
+to other applies": in every interleaving, when a caller is about to run the mutating part of its
+body, the pipeline's state is exactly the state its re-plan / hash comparison was evaluated on.
+(Other *applies*: an external `Start` is not under this lock; that window is `flipState`.) -/
+theorem C16_apply_sees_checked_state {σ : Type} (idOf : Nat → LockTable.Id) (f : Nat → σ → σ) (st0 : LockTable.Id → σ)
+    (sched : List Nat) (c : Nat) :
+    let s := LockTable.run ⟨codeShape, idOf, f⟩ (LT.init st0) sched
+    (s.cs c).pc = .apply → (s.cs c).snap = some (s.st (idOf c)) := by
+  intro s h
+  exact (LockTable.inv_run ⟨codeShape, idOf, f⟩ rfl sched _ (LockTable.inv_init _ st0)).snapOk c h
+
+/-- the same with the apply bodies of this file: any number of concurrent `ApplyPlanLive` calls
+(each with its own configuration, presented plan, authorisation and lifecycle script; the state
+an apply for pipeline `id` works on is `st id`): the sequential program `applyPlanLive` is what
+each call amounts to — its mutation starts from the state its staleness test saw. -/
+theorem C16_apply_live_atomic_wrt_applies (v : Variant) (cfgs : Nat → PipeCfg) (plans : Nat → PlanView)
+    (allows : Nat → Bool) (envs : Nat → LiveEnv) (st0 : LockTable.Id → St) (sched : List Nat) (c : Nat) :
+    let sys : Sys St := ⟨codeShape, fun i => (cfgs i).id,
+      fun i s => (applyPlanLive v (cfgs i) (plans i) (allows i) (envs i) s).2.1⟩
+    let s := LockTable.run sys (LT.init st0) sched
+    (s.cs c).pc = .apply → (s.cs c).snap = some (s.st (cfgs c).id) :=
+  C16_apply_sees_checked_state _ _ st0 sched c
+
+/-- the split-section variant (read-locked lookup, creation, write-locked insert without
+re-check): two first-ever callers for pipeline 7 both miss the lookup, each creates and locks its
+own mutex — both are inside the section; and the second one then applies to a state that is not
+the one it checked (a stale plan is applied). -/
+theorem C16_apply_lock_mutual_exclusion_counterexample_split :
+    let sys : Sys Nat := ⟨splitShape, fun _ => 7, fun _ x => x + 1⟩
+    let s := LockTable.run sys (LT.init fun _ => 0) [0, 1, 0, 0, 1, 1, 0, 1]
+    let s' := LockTable.run sys s [0, 1, 0]
+    (holdsB s 0 = true ∧ holdsB s 1 = true ∧ (s.cs 0).l = some 0 ∧ (s.cs 1).l = some 1) ∧
+    ((s'.cs 1).pc = .apply ∧ (s'.cs 1).snap = some 0 ∧ s'.st 7 = 1) := by
+  decide
+
+/-- non-vacuity: with the code's structure the same schedule leaves caller 1 blocked at
+`acquire` on the mutex caller 0 holds; after caller 0 finished, caller 1 checks the new state. -/
+example :
+    let sys : Sys Nat := ⟨codeShape, fun _ => 7, fun _ x => x + 1⟩
+    let s := LockTable.run sys (LT.init fun _ => 0) [0, 1, 0, 1, 0, 1, 0, 1]
+    let s' := LockTable.run sys s [0, 0, 1, 1]
+    (holdsB s 0 = true ∧ (s.cs 1).pc = .acquire ∧ (s.cs 0).l = some 0 ∧ (s.cs 1).l = some 0) ∧
+    ((s'.cs 1).pc = .apply ∧ (s'.cs 1).snap = some 1 ∧ s'.st 7 = 1) := by
+  decide
+
+end Lock
 
 end Conduit.Ctl
